@@ -165,6 +165,8 @@ def run_build(mos, cfg, workdir):
 def run(chk):
     rng = random.Random(chk.seed)
     chk.proof = common.prove("C09")
+    if chk.tier == "thorough":
+        common.coqchk(chk, "C09")
     probe = Proc([common.build_probe()])
     model = Proc([common.build_model()])
     mos = common.build_mos()
